@@ -1,6 +1,7 @@
 from common import Rng
 
 CONFIG = dict(
+    claimed=False, na_reason="proofs in progress (model, spec, correspondence and oracle already run; see checks/c08.py)",
     lean_modules=["Rbgp.Fsm.TimedProps"],
     theorems=[
         "Rbgp.Fsm.TimedProps.check_run_ok",
